@@ -17,13 +17,30 @@ def classify(case, kind):
     return set(case.get("classes", [])) & KNOWN
 
 
-def run(ctx):
+def replay(ctx, path):
+    """Re-runs the check on the one document stored in a replay file (falls back to re-running the whole
+    seeded check when the replay holds no document)."""
+    import json
+    import os
+    data = json.load(open(path))
+    print(json.dumps(data, indent=1, ensure_ascii=False)[:6000])
+    doc = (data.get("case") or {}).get("document")
+    if not doc:
+        return vlib.generic_replay(ctx, path)
+    os.makedirs(vlib.BUILD, exist_ok=True)
+    f = os.path.join(vlib.BUILD, "c12_replay_doc.graphql")
+    open(f, "w").write(doc)
+    return run(ctx, harness_extra=["--doc", f])
+
+
+def run(ctx, harness_extra=()):
     return vlib.standard_check(
         ctx,
         targets=["C12/Properties.vo", "C12/Corr.vo"],
         pinned="C12/Pinned.v",
         binname="c12",
         classify=classify,
+        harness_extra=harness_extra,
         extra_trusted=[
             "json-writer 0.4.0 (JSONObjectWriter/JSONArrayWriter over String, write_string escape table) is modelled by "
             "C12/Model.v:ser; the comparison with the implementation is on the exact emitted text",
